@@ -10,6 +10,7 @@ import (
 	"flag"
 	"fmt"
 	"os"
+	"strconv"
 	"time"
 
 	"verifsim/scn"
@@ -77,6 +78,7 @@ func main() {
 	hashes := flag.Bool("hashes", false, "record the event-log hash of every run (determinism self-test)")
 	noShrink := flag.Bool("no-shrink", false, "do not minimise")
 	budget := flag.Duration("budget", 0, "stop generating after this wall time")
+	shrinkTime := flag.Duration("shrink-time", 25*time.Second, "wall-time budget for minimising one violation")
 	flag.Parse()
 
 	run.Install()
@@ -124,7 +126,7 @@ func main() {
 			min := f.Original
 			if !*noShrink {
 				var n int
-				min, n = run.Shrink(f.Original, f.Viol.Class, opt, 4000, 60*time.Second)
+				min, n = run.Shrink(f.Original, f.Viol.Class, opt, 6000, *shrinkTime)
 				f.ShrinkExecs = n
 			}
 			// confirm the minimised scenario once more, with a trace
@@ -197,6 +199,13 @@ func doReplay(path string, opt run.Options, trace bool) int {
 		return 2
 	}
 	opt.Trace = trace
+	if n, _ := strconv.Atoi(os.Getenv("XPSIM_REPEAT")); n > 1 {
+		// diagnostic: the same scenario several times in one process
+		for i := 0; i < n; i++ {
+			r := run.Execute(rf.Scenario, opt)
+			fmt.Printf("repeat %d: loghash=%016x violations=%d\n", i, r.LogHash, len(r.Viol))
+		}
+	}
 	r := run.Execute(rf.Scenario, opt)
 	if trace {
 		for _, l := range r.Trace {
